@@ -23,10 +23,18 @@
 (* real server's answers with the views: the oracle is this module.        *)
 (*                                                                         *)
 (* Part 2 (gate).  OperationContext.DisableIntrospection as a small state  *)
-(* machine shaped like the code: CreateOperationContext sets it, only the  *)
-(* Introspection extension's MutateOperationContext clears it, the         *)
-(* generated resolvers of __schema / __type and federation's _service read *)
-(* it.  An abstract operation reaches those positions through aliases,     *)
+(* machine shaped like the code: CreateOperationContext sets it, then      *)
+(* EVERYTHING registered on the server that writes it runs in the order    *)
+(* the executor prescribes - the OperationContextMutator extensions in     *)
+(* registration order (extension.Introspection clears it, user mutators    *)
+(* set or clear it), then at dispatch the operation middlewares            *)
+(* (AroundOperations guards), first registered = outermost = first - and   *)
+(* the generated resolvers of __schema / __type and federation's _service  *)
+(* read it.  The registration list `chain` is part of the operation, the   *)
+(* position in it is explicit state (gi): what the LAST writer before      *)
+(* field execution decided is what the resolvers honour (LastWriterDecides)*)
+(* for every registration order.                                           *)
+(* An abstract operation reaches those positions through aliases,          *)
 (* named / nested / inline fragments, @include with a variable, and        *)
 (* __type(name:) with literal, variable or defaulted variable.  Invariant: *)
 (* disabled => every such position is null with an error and no position   *)
@@ -47,14 +55,15 @@ VARIABLES
     pc,         \* "chosen" | "done" (view machine) ; "idle" otherwise
     s,          \* the schema
     out,        \* [all |-> View(s,TRUE), cur |-> View(s,FALSE)] once done
-    gpc,        \* gate machine: "idle" | "create" | "mutate" | "exec" | "done"
-    op,         \* the operation: [ext |-> "t"|"f", entries |-> Seq(Entry)]
+    gpc,        \* gate machine: "idle" | "create" | "mutate" | "dispatch" | "exec" | "done"
+    op,         \* the operation: [ext |-> "t"|"f", chain |-> Seq(Item), entries |-> Seq(Entry)]
     dis,        \* OperationContext.DisableIntrospection: "unset" | "t" | "f"
+    gi,         \* gate machine: index of the next registered handler in the current phase (0 = none)
     res         \* response key -> outcome, filled by the resolvers
 
 vvars == <<pc, s, out>>
-gvars == <<gpc, op, dis, res>>
-vars  == <<pc, s, out, gpc, op, dis, res>>
+gvars == <<gpc, op, dis, gi, res>>
+vars  == <<pc, s, out, gpc, op, dis, gi, res>>
 
 -----------------------------------------------------------------------------
 (* Helpers *)
@@ -343,15 +352,15 @@ NullByKind(V) ==
 (* View machine: choose a schema, introspect it *)
 
 NoOut == [all |-> <<>>, cur |-> <<>>]
-NoOp  == [ext |-> "f", entries |-> <<>>]
+NoOp  == [ext |-> "f", chain |-> <<>>, entries |-> <<>>]
 
 VInit == /\ s \in Schemas /\ pc = "chosen" /\ out = NoOut
-         /\ gpc = "idle" /\ op = NoOp /\ dis = "unset" /\ res = <<>>
+         /\ gpc = "idle" /\ op = NoOp /\ dis = "unset" /\ gi = 0 /\ res = <<>>
 
 Introspect == /\ pc = "chosen"
               /\ out' = [all |-> View(s, TRUE), cur |-> View(s, FALSE)]
               /\ pc' = "done"
-              /\ UNCHANGED <<s, gpc, op, dis, res>>
+              /\ UNCHANGED <<s, gpc, op, dis, gi, res>>
 
 VNext == Introspect
 
@@ -384,7 +393,23 @@ IsEntry(e) ==
 \* two selections with one response key must be mergeable (same field, same arguments)
 Mergeable(e1, e2) == e1.key # e2.key \/ (e1.pos = e2.pos /\ e1.arg = e2.arg /\ e1.known = e2.known)
 
+(* Item [k, w]: one registration on the server (srv.Use / srv.AroundOperations), in      *)
+(* registration order                                                                    *)
+(*   k = "intro"  extension.Introspection{}: an OperationContextMutator that clears the  *)
+(*                flag (w = "f"); it takes no part in the dispatch                       *)
+(*   k = "mut"    a user extension implementing OperationContextMutator that writes      *)
+(*                DisableIntrospection = (w = "t") for this request                      *)
+(*   k = "mw"     an AroundOperations guard (OperationInterceptor) that writes w for     *)
+(*                this request before calling next, or passes (w = "-")                  *)
+IsItem(x) == \/ (x.k = "intro" /\ x.w = "f")
+             \/ (x.k = "mut" /\ x.w \in {"t", "f"})
+             \/ (x.k = "mw" /\ x.w \in {"t", "f", "-"})
+
+HasIntro(c) == \E i \in 1..Len(c) : c[i].k = "intro"
+
 IsOp(o) == /\ o.ext \in {"t", "f"}
+           /\ \A i \in 1..Len(o.chain) : IsItem(o.chain[i])
+           /\ (o.ext = "t") <=> HasIntro(o.chain)
            /\ Len(o.entries) > 0
            /\ \A i \in 1..Len(o.entries) : IsEntry(o.entries[i])
            /\ \A i, j \in 1..Len(o.entries) : Mergeable(o.entries[i], o.entries[j])
@@ -392,15 +417,38 @@ IsOp(o) == /\ o.ext \in {"t", "f"}
 Keys(o) == {o.entries[i].key : i \in 1..Len(o.entries)}
 EntryOf(o, k) == o.entries[CHOOSE i \in 1..Len(o.entries) : o.entries[i].key = k]
 
-GInit == /\ op \in Ops /\ gpc = "create" /\ dis = "unset" /\ res = <<>>
+GInit == /\ op \in Ops /\ gpc = "create" /\ dis = "unset" /\ gi = 0 /\ res = <<>>
          /\ pc = "idle" /\ s = <<>> /\ out = NoOut
 
 \* executor.CreateOperationContext: DisableIntrospection: true
-CreateOpCtx == /\ gpc = "create" /\ dis' = "t" /\ gpc' = "mutate" /\ UNCHANGED <<op, res>>
+CreateOpCtx == /\ gpc = "create" /\ dis' = "t" /\ gpc' = "mutate" /\ gi' = 1 /\ UNCHANGED <<op, res>>
 
-\* extension.Introspection.MutateOperationContext, run only if the extension is installed
-MutateOpCtx == /\ gpc = "mutate" /\ op.ext = "t" /\ dis' = "f" /\ gpc' = "exec" /\ UNCHANGED <<op, res>>
-NoMutator   == /\ gpc = "mutate" /\ op.ext = "f" /\ gpc' = "exec" /\ UNCHANGED <<op, dis, res>>
+\* CreateOperationContext, `for _, p := range e.ext.operationContextMutators`: registration order
+InMutate == gpc = "mutate" /\ gi \in 1..Len(op.chain)
+\* extension.Introspection.MutateOperationContext
+IntroMutate == /\ InMutate /\ op.chain[gi].k = "intro"
+               /\ dis' = "f" /\ gi' = gi + 1 /\ UNCHANGED <<gpc, op, res>>
+\* a user extension's MutateOperationContext
+UserMutate  == /\ InMutate /\ op.chain[gi].k = "mut"
+               /\ dis' = op.chain[gi].w /\ gi' = gi + 1 /\ UNCHANGED <<gpc, op, res>>
+\* an operation middleware is not an OperationContextMutator
+NotMutator  == /\ InMutate /\ op.chain[gi].k = "mw"
+               /\ gi' = gi + 1 /\ UNCHANGED <<gpc, op, dis, res>>
+MutateDone  == /\ gpc = "mutate" /\ gi = Len(op.chain) + 1
+               /\ gpc' = "dispatch" /\ gi' = 1 /\ UNCHANGED <<op, dis, res>>
+
+\* DispatchOperation, e.ext.operationMiddleware: the first registered interceptor is the
+\* outermost and runs first; each runs its own code, then next
+InDispatch == gpc = "dispatch" /\ gi \in 1..Len(op.chain)
+GuardWrites == /\ InDispatch /\ op.chain[gi].k = "mw" /\ op.chain[gi].w # "-"
+               /\ dis' = op.chain[gi].w /\ gi' = gi + 1 /\ UNCHANGED <<gpc, op, res>>
+GuardPasses == /\ InDispatch /\ op.chain[gi].k = "mw" /\ op.chain[gi].w = "-"
+               /\ gi' = gi + 1 /\ UNCHANGED <<gpc, op, dis, res>>
+\* extension.Introspection and user mutators are not operation interceptors
+NotInterceptor == /\ InDispatch /\ op.chain[gi].k \in {"intro", "mut"}
+                  /\ gi' = gi + 1 /\ UNCHANGED <<gpc, op, dis, res>>
+DispatchDone == /\ gpc = "dispatch" /\ gi = Len(op.chain) + 1
+                /\ gpc' = "exec" /\ gi' = 0 /\ UNCHANGED <<op, dis, res>>
 
 \* the generated root resolvers; root fields of a query may run in any order
 Outcome(e) ==
@@ -412,23 +460,39 @@ Outcome(e) ==
 
 Resolve(k) == /\ gpc = "exec" /\ k \in Keys(op) /\ k \notin DOMAIN res
               /\ res' = res @@ (k :> Outcome(EntryOf(op, k)))
-              /\ UNCHANGED <<op, dis, gpc>>
+              /\ UNCHANGED <<op, dis, gi, gpc>>
 
-Finish == /\ gpc = "exec" /\ DOMAIN res = Keys(op) /\ gpc' = "done" /\ UNCHANGED <<op, dis, res>>
+Finish == /\ gpc = "exec" /\ DOMAIN res = Keys(op) /\ gpc' = "done" /\ UNCHANGED <<op, dis, gi, res>>
 
-GNext == \/ (CreateOpCtx /\ UNCHANGED vvars) \/ (MutateOpCtx /\ UNCHANGED vvars) \/ (NoMutator /\ UNCHANGED vvars)
+GNext == \/ (CreateOpCtx /\ UNCHANGED vvars)
+         \/ (IntroMutate /\ UNCHANGED vvars) \/ (UserMutate /\ UNCHANGED vvars)
+         \/ (NotMutator /\ UNCHANGED vvars) \/ (MutateDone /\ UNCHANGED vvars)
+         \/ (GuardWrites /\ UNCHANGED vvars) \/ (GuardPasses /\ UNCHANGED vvars)
+         \/ (NotInterceptor /\ UNCHANGED vvars) \/ (DispatchDone /\ UNCHANGED vvars)
          \/ (\E k \in Keys(op) : Resolve(k) /\ UNCHANGED vvars) \/ (Finish /\ UNCHANGED vvars)
 
 \* Query._service is `_Service!`: its error nulls the whole data
 DataNull == \E k \in DOMAIN res : res[k] = "null_err" /\ EntryOf(op, k).pos = "_service"
 
+\* The property, stated without the machine: the writes that reach a request are the
+\* executor's default, then the context mutators in registration order, then the guards that
+\* fire in registration order; the last of them decides.
+Writes(o) == << "t" >>
+             \o MapSeq(LAMBDA x : x.w, SelectSeq(o.chain, LAMBDA x : x.k \in {"intro", "mut"}))
+             \o MapSeq(LAMBDA x : x.w, SelectSeq(o.chain, LAMBDA x : x.k = "mw" /\ x.w # "-"))
+Decided(o) == Writes(o)[Len(Writes(o))]
+
 GateWellFormed == IsOp(op)
-\* only the extension enables introspection
-OnlyExtEnables == dis = "f" => op.ext = "t"
+LastWriterDecides == gpc \in {"exec", "done"} => dis = Decided(op)
+\* without any registered writer of "f" introspection stays disabled
+OnlyWritersEnable == dis = "f" => \E i \in 1..Len(op.chain) : op.chain[i].w = "f"
 \* disabled => every introspection position is null with an error, none carries data
-GateHolds == gpc = "done" /\ op.ext = "f" =>
+GateHolds == gpc = "done" /\ Decided(op) = "t" =>
                  \A k \in Keys(op) : EntryOf(op, k).pos \in IntroPos => res[k] = "null_err"
-NoLeak == op.ext = "f" => \A k \in DOMAIN res : res[k] \notin {"data", "null"}
+NoLeak == (gpc \in {"exec", "done"} /\ Decided(op) = "t") => \A k \in DOMAIN res : res[k] \notin {"data", "null"}
+\* enabled => every introspection position answers
+GateOpen == gpc = "done" /\ Decided(op) = "f" =>
+                 \A k \in Keys(op) : EntryOf(op, k).pos \in IntroPos => res[k] \in {"data", "null"}
 
 -----------------------------------------------------------------------------
 (* Export for the binding (ACTION_CONSTRAINT in the configurations, -workers 1):   *)
@@ -439,6 +503,6 @@ EmitView == (pc = "chosen" /\ pc' = "done") =>
                 PrintT(ToJson([s |-> s, all |-> out'.all, cur |-> out'.cur]))
 
 EmitGate == (gpc = "exec" /\ gpc' = "done") =>
-                PrintT(ToJson([op |-> op, res |-> res, datanull |-> IF DataNull THEN "t" ELSE "f"]))
+                PrintT(ToJson([op |-> op, res |-> res, dis |-> dis, datanull |-> IF DataNull THEN "t" ELSE "f"]))
 
 =============================================================================
